@@ -13,9 +13,11 @@ SELECTORS = ['a', 'a:hover', 'a::before', '@media (min-width: 1px)', 'a[t="}"]',
              'a:not(:hover)::after', 'a[t="\\"}{"]', 'a /* { ; } */ b']
 DECLS = [('b', 'c'), ('b', 'c d'), ('$v', '1px'), ('--x', 'y'), ('b', '"x;y{}"'), ('b', 'url(a)'), ('b', 'c /* ; */ d'),
          ('b', '"\\";}:"'), ('b', "'\\'};' d"), ('b', 'url(http://x/y:z)'),
-         ('$m', '(a: 1, b: (c: 2), d: 3)')]
+         ('$m', '(a: 1, b: (c: 2), d: 3)'), ('b', 'c /** ; **/ d')]
 DECLS_PAREN = [('b', 'url(a;b)'), ('b', 'f({)')]
 COMMENT = '/* } ; : { */'
+# comments in rotation: terminators preceded by further asterisks, empty comments
+COMMENTS = [COMMENT, '/** } **/', '/***/', '/* a*b ; **/', '/**/', '/* {* / */']
 LAYOUTS = ('compact', 'spaced', 'space-before-semicolon', 'comment-before-semicolon')
 # extended declaration menu for the action helpers (C17): value tokens recorded
 DECLS_TOKENS = [
@@ -66,7 +68,7 @@ def emit(shape, rotation=0, layout='compact', decls=None, last_without_semicolon
     out = []
     pos = [0]
     nodes = []
-    counters = {'sel': rotation, 'decl': rotation}
+    counters = {'sel': rotation, 'decl': rotation, 'comment': rotation}
     spaced = layout == 'spaced'
 
     def w(s):
@@ -80,7 +82,8 @@ def emit(shape, rotation=0, layout='compact', decls=None, last_without_semicolon
     def node(nd, parent, level, is_last_in_body):
         if nd[0] == 'C':
             indent(level)
-            w(COMMENT)
+            w(COMMENTS[counters['comment'] % len(COMMENTS)])
+            counters['comment'] += 1
             if spaced:
                 w('\n')
             return
